@@ -49,7 +49,7 @@ TEXTS = {
          'Trusted: specs/*.h. DELTA mini-blocks wider than 32 bits are byte-aligned instead of bit-packed (known finding if listed). Whole-stream independent decoder equivalence is not claimed.'),
  'C13': ('Thrift compact primitives are mutually inverse for all values (varint 1..10 bytes, zigzag i16/i32/i64, double, bool, uuid, binary (bounded payload), field header for every (last id, id, type), list/set/map headers), bytes equal an independent spec encoder, consumed == produced; thrift_skip consumes exactly one encoded value (fixed-width, list/set, map of fixed-width); writers of parquet_types.c emit only (type, id) rows of parquet.thrift for the open struct, ids ascending, required fields present, list headers matching; parser safety of the page-header and metadata sub-parsers.',
          'Trusted: specs/thrift_spec.h, specs/parquet_thrift_table.h, decoder/arena contracts assumed in the ptypes jobs (proved separately in the thrift jobs where live). Struct-level parse(write(x)) == x is not claimed.'),
- 'C14': ('Reader: on each of the four load paths a stored CRC that differs from the CRC of exactly compressed_page_size stored bytes yields CRC_MISMATCH before any decompression/decoding, with page state unchanged and nothing leaked; equal/absent/disabled never yields a CRC error. Writer: finalize checksums exactly the bytes appended after the header and writes the crc field iff write_crc. Error-detection lemmas on the bit-serial definition (linearity, zero-input injectivity, 32-bit window) proved; CRC function == bit-serial IEEE definition where the crc32 jobs are live (unbounded through the ghost register and the slicing-by-8 lemma chain; overlay-free bounded cross-checks for lengths 2..8). Verification disabled: the page decoders (carquet_read_data_page_v1 bounded, carquet_read_dictionary_page) stay memory-safe on arbitrary page bodies.',
+ 'C14': ('Reader: on each of the four load paths a stored CRC that differs from the CRC of exactly compressed_page_size stored bytes yields CRC_MISMATCH before any decompression/decoding, with page state unchanged and nothing leaked; equal/absent/disabled never yields a CRC error. Writer: finalize checksums exactly the bytes appended after the header and writes the crc field iff write_crc. Error-detection lemmas on the bit-serial definition (linearity, zero-input injectivity, 32-bit window) proved; CRC function == bit-serial IEEE definition where the crc32 jobs are live (unbounded through the ghost register and the slicing-by-8 lemma chain; overlay-free bounded cross-checks for lengths 2..7). Verification disabled: the page decoders (carquet_read_data_page_v1 bounded, carquet_read_dictionary_page) stay memory-safe on arbitrary page bodies.',
          'Trusted: stubs of parse/codec/stdio in the page jobs; paper induction combining the burst lemmas; slicing-by-8 block identity if listed as assumed. "Every file, every damage position" is the composition of these contracts, done on paper.'),
  'C15': ('Dispatcher: for every capability mask each slot is non-NULL, in the set the mask allows (ISA subset incl. avx512bw/vl), override order scalar < SSE < AVX2 < AVX-512, idempotent, wrappers pass arguments unchanged. Scalar kernels and SSE4.2 kernels: in-bounds accesses for every count and equality with the definition (ghost index / lockstep ghost), under C models of the body-less SSE builtins.',
          'Trusted: stubs/ia32_model.c (21 builtin models written from the Intel SDM, cross-checked natively against the hardware on 2e6 vectors each), CPUID stub. Of the AVX2/AVX-512 kernels only pack_bools/unpack_bools are under contract (bounded in count 0..130); the other AVX kernels are not (n/a part). Bounded jobs (byte-stream split float, match copy/length, small memset/memcpy, and the alignment quantifier: crc32c / count_non_nulls / build_null_bitmap / find_run_length on buffers starting 0..7 elements into an exactly sized block, count 0..12) are reported under coverage.bounded. Kernel domain for pack_bools is bytes in {0,1}.'),
